@@ -18,7 +18,9 @@ for id in $ids; do
   git -C $wt checkout -q -- .
   (cd $wt && PYTHONPATH=$wt /venv/bin/python $dir/demo.py >/dev/null 2>&1); dwo=$?
   s=$(date +%s)
-  r=$(/verif/tools/mutest.sh $prop $dir/patch.diff 2>&1 | grep "^VIOLATION\|^SUMMARY\|^UNDECIDED\|^CHECKER" | head -8)
+  full=$(/verif/tools/mutest.sh $prop $dir/patch.diff 2>&1 | grep "^VIOLATION\|^SUMMARY\|^UNDECIDED\|^CHECKER")
+  # two lines of each kind are enough to classify (a failing unit can print dozens)
+  r=$(echo "$full" | grep "^VIOLATION" | grep "bounded" | head -2; echo "$full" | grep "^VIOLATION" | grep -v "bounded" | head -3; echo "$full" | grep -v "^VIOLATION" | head -4)
   secs=$(( $(date +%s) - s ))
   python3 - "$id" "$prop" "$tests" "$dw" "$dwo" "$r" "$secs" <<'PY'
 import json, sys, re, subprocess
